@@ -199,15 +199,17 @@ def _supporting_facts(run, prog, tier):
 def _termination(run, prog):
     """every while loop in a decoder / receive function strictly shrinks a buffer per iteration"""
     n = 0
+    # every function of the codec module (decoders and whatever helpers / generators they delegate to) and the receive
+    # functions of the endpoints
     targets = [fi for fi in prog.functions.values()
-               if (fi.module.short == "header" and fi.name in ("parse", "parse_option", "read", "_parse_header", "_unpack"))
+               if (fi.module.short == "header" and fi.name not in ("build", "build_option", "__str__", "_find"))
                or fi.qual in (f"{BASE}.datagram_received", f"{PROTO}.message_received", f"{PROTO}.sd_message_received", f"{SVC}.message_received")]
     for fi in targets:
         for node in ast.walk(fi.node):
             if not isinstance(node, ast.While):
                 continue
             n += 1
-            ok, why = _consumes(node)
+            ok, why = _consumes(node, fi.node, fi.module.tree)
             run.ob("T1", f"{fi.qual}:while@{_loop_key(node)}", ok, loc(fi, node), why)
     run.floor("T1", n, 1)
 
@@ -216,13 +218,64 @@ def _loop_key(node: ast.While) -> str:
     return ast.unparse(node.test)[:40].replace(" ", "")
 
 
-def _consumes(loop: ast.While):
+def _byte_valued(name: str, fn) -> bool:
+    """every assignment to `name` in the function takes a single element out of a buffer (x = b[i], x, y = b[i], ...):
+    a byte value, hence >= 0"""
+    seen = False
+    for st in ast.walk(fn):
+        if not isinstance(st, ast.Assign) or len(st.targets) != 1:
+            continue
+        tg, val = st.targets[0], st.value
+        pairs = []
+        if isinstance(tg, ast.Tuple) and isinstance(val, ast.Tuple) and len(tg.elts) == len(val.elts):
+            pairs = list(zip(tg.elts, val.elts))
+        elif isinstance(tg, ast.Name):
+            pairs = [(tg, val)]
+        elif isinstance(tg, ast.Tuple) and any(isinstance(e, ast.Name) and e.id == name for e in tg.elts):
+            return False
+        for t_, v_ in pairs:
+            if isinstance(t_, ast.Name) and t_.id == name:
+                seen = True
+                if not (isinstance(v_, ast.Subscript) and not isinstance(v_.slice, ast.Slice)):
+                    return False
+    return seen
+
+
+def _parser_parameter(name: str, fn, tree) -> bool:
+    """`name` is a parameter of fn and every call of fn in the module passes a decoder (`X.parse` / `_unpack`) for it"""
+    if fn is None or tree is None:
+        return False
+    params = [a.arg for a in fn.args.posonlyargs + fn.args.args]
+    if name not in params:
+        return False
+    idx = params.index(name)
+    sites = 0
+    for n in ast.walk(tree):
+        if isinstance(n, ast.Call) and ((isinstance(n.func, ast.Name) and n.func.id == fn.name) or
+                                        (isinstance(n.func, ast.Attribute) and n.func.attr == fn.name)):
+            off = 1 if (isinstance(n.func, ast.Attribute) and params and params[0] in ("self", "cls")) else 0
+            a = n.args[idx - off] if 0 <= idx - off < len(n.args) else next((k.value for k in n.keywords if k.arg == name), None)
+            if not (isinstance(a, ast.Attribute) and a.attr in ("parse", "_unpack")):
+                return False
+            sites += 1
+    return sites >= 1
+
+
+def _consumes(loop: ast.While, fn=None, tree=None):
     """(ok, explanation): some buffer name is rebound, on the straight-line spine of the body, to a strict suffix of
     itself: `x, B = P.parse(B, ...)` (parser rest) or `B = B[k:]` / `.., B = .., B[k:]` with constant k >= 1"""
     best = None
     for st in loop.body:
         if isinstance(st, (ast.Continue, ast.Break)):
             break
+        # stream decoders: every iteration first awaits reader.readexactly(<header size>), which draws that many bytes from
+        # the stream or ends the loop with IncompleteReadError at the end of the stream
+        v0 = st.value if isinstance(st, (ast.Assign, ast.Expr, ast.AnnAssign)) else None
+        if isinstance(v0, ast.Await) and isinstance(v0.value, ast.Call) and isinstance(v0.value.func, ast.Attribute) \
+                and v0.value.func.attr == "readexactly" and len(v0.value.args) == 1:
+            a0 = v0.value.args[0]
+            if (isinstance(a0, ast.Constant) and isinstance(a0.value, int) and a0.value >= 1) or (isinstance(a0, ast.Attribute) and a0.attr == "size"):
+                return True, f"every iteration draws {ast.unparse(a0)} byte(s) from the stream with readexactly (or ends at the end of the stream)"
         if any(isinstance(x, ast.Continue) for x in ast.walk(st)) and best is None and not isinstance(st, ast.Assign):
             # a `continue` before the consuming statement would skip it
             return False, "an iteration can `continue` before the buffer is consumed"
@@ -238,6 +291,9 @@ def _consumes(loop: ast.While):
             if isinstance(f, ast.Attribute) and f.attr in ("parse", "_unpack") and val.args and isinstance(val.args[0], ast.Name) and len(tg.elts) == 2 \
                     and isinstance(tg.elts[1], ast.Name) and tg.elts[1].id == val.args[0].id:
                 return True, f"`{tg.elts[1].id}` is rebound to the unconsumed rest returned by {ast.unparse(f)} (which consumes at least its fixed header)"
+            if isinstance(f, ast.Name) and val.args and isinstance(val.args[0], ast.Name) and len(tg.elts) == 2 and isinstance(tg.elts[1], ast.Name) \
+                    and tg.elts[1].id == val.args[0].id and _parser_parameter(f.id, fn, tree):
+                return True, f"`{tg.elts[1].id}` is rebound to the rest returned by the decoder passed as `{f.id}` (every caller passes a parse function)"
         elif isinstance(tg, ast.Name):
             pairs = [(tg, val)]
         for t_, v_ in pairs:
@@ -246,6 +302,14 @@ def _consumes(loop: ast.While):
                 lo = v_.slice.lower
                 if isinstance(lo, ast.Constant) and isinstance(lo.value, int) and lo.value >= 1:
                     return True, f"`{t_.id}` loses at least {lo.value} byte(s) per iteration"
+                # b = b[n + k:] with k >= 1 and n a byte value
+                if isinstance(lo, ast.BinOp) and isinstance(lo.op, ast.Add) and fn is not None:
+                    a, b_ = lo.left, lo.right
+                    if isinstance(a, ast.Constant):
+                        a, b_ = b_, a
+                    if isinstance(b_, ast.Constant) and isinstance(b_.value, int) and b_.value >= 1 and isinstance(a, ast.Name) \
+                            and _byte_valued(a.id, fn):
+                        return True, f"`{t_.id}` loses `{a.id}` + {b_.value} >= {b_.value} byte(s) per iteration"
                 # b = b[n:] inside `while n != 0` / `while n > 0` / `while n` with n a length byte
                 tst = loop.test
                 if isinstance(lo, ast.Name) and ((isinstance(tst, ast.Name) and tst.id == lo.id) or (
@@ -268,7 +332,10 @@ class _ParseMayFail(NoInline):
         return super().may_raise(ev, eng)
 
 
-def _guards(run, prog, et):
+def _guards(run, prog, et, accept_rule=None):
+    """accept_rule=None: the rejection half (this property).  accept_rule='Sx': only the acceptance half - a decodable SD
+    notification reaches the reboot check and the entry dispatch on every path - reported under that rule name (C04
+    relies on it: a message that is silently dropped cannot make two stacks converge)."""
     e0 = engine(prog, _ParseMayFail())
     e0.policy.unroll = 1
     mr = prog.lookup_method(PROTO, "message_received")
@@ -304,6 +371,8 @@ def _guards(run, prog, et):
 
     cases = 0
     bad = {}
+    free_state = set()
+    smr_q = prog.lookup_method(PROTO, "sd_message_received").qual
     for combo in itertools.product((True, False), repeat=5):
         for parse_ok in (True, False):
             cases += 1
@@ -324,29 +393,48 @@ def _guards(run, prog, et):
                 pc = calls_to(p, hp.qual)
                 if pc and (pc[0].raised is None) != parse_ok:
                     continue
-                try:
-                    if all(bool(eval_term(c, leaf)) == v for c, v, _, _ in p.conds):
-                        hits.append(p)
-                except AnalysisError:
-                    raise
+                ok_path = True
+                for c, v, _, _ in p.conds:
+                    try:
+                        if bool(eval_term(c, leaf)) != v:
+                            ok_path = False
+                            break
+                    except AnalysisError:
+                        # a decision about state of the endpoint itself (a cache, a counter, a flag): a free dimension -
+                        # the filter has to be right for either outcome
+                        if contains(c, lambda s_: s_[0] == "attr" and s_[1] == ("self", PROTO)):
+                            free_state.add(show(c)[:80])
+                            continue
+                        raise
+                if ok_path:
+                    hits.append(p)
             if all(combo) and not parse_ok:
                 hits = [p for p in hits if calls_to(p, hp.qual)]
-            if len(hits) != 1:
+            if not hits:
+                raise AnalysisError(f"{mr.qual}: no path for one header combination")
+            if len(hits) != 1 and not free_state:
                 if not all(combo):
                     hits = hits[:1] if hits and all(not [e for e in h.events if effectful(e)] for h in hits) else hits
                 if len(hits) != 1:
                     raise AnalysisError(f"{mr.qual}: {len(hits)} paths for one header combination")
-            p = hits[0]
-            eff = [e for e in p.events if effectful(e)]
             accept = all(combo) and parse_ok
-            if not accept and eff:
-                wrong = [k for k, ok in zip(sd_vals, combo) if not ok] or ["undecodable payload"]
-                bad.setdefault("+".join(wrong), f"message with foreign {', '.join(wrong)} still reaches {eff[0]!r}")
-            if not accept and p.outcome[0] == "raise":
-                bad.setdefault("raises", f"rejected message makes message_received raise {p.outcome[1]}")
-            if accept and not eff:
-                bad.setdefault("accept", "a well-formed SD notification is not dispatched")
+            for p in hits:
+                eff = [e for e in p.events if effectful(e)]
+                if not accept and eff:
+                    wrong = [k for k, ok in zip(sd_vals, combo) if not ok] or ["undecodable payload"]
+                    bad.setdefault("+".join(wrong), f"message with foreign {', '.join(wrong)} still reaches {eff[0]!r}")
+                if not accept and p.outcome[0] == "raise":
+                    bad.setdefault("raises", f"rejected message makes message_received raise {p.outcome[1]}")
+                if accept and not (calls_to(p, smr_q) and [e for e in p.events if e.kind == "call" and e.attrname == "check_received"]):
+                    bad.setdefault("accept", "a well-formed SD notification is not handed to the reboot check and the entry dispatch on the path ["
+                                   + p.describe()[:90] + "]")
     run.abstract_cases += cases
+    if accept_rule is not None:
+        run.ob(accept_rule, f"{mr.qual}:decodable-notification-is-processed", "accept" not in bad, loc(mr),
+               bad.get("accept", "every decodable SD notification reaches the reboot check and the entry dispatch"
+                       + (f" (for either outcome of {sorted(free_state)})" if free_state else "")))
+        return
+    bad.pop("accept", None)  # liveness of the receive path is C04's business
     for k, m in bad.items():
         run.ob("G1", f"{mr.qual}:filter[{k}]", False, loc(mr), m)
     if not bad:
